@@ -309,7 +309,7 @@ func (h *handler) doQuery(sqlString string, permalink string) (*QueryResult, err
 	var mx sync.Mutex
 	ctx, cancel := context.WithTimeout(context.Background(), h.QueryTimeout)
 	defer cancel()
-	stats, _ := rs.Iterate(ctx, func(inFields core.Fields) error {
+	stats, iterateErr := rs.Iterate(ctx, func(inFields core.Fields) error {
 		fields = inFields
 		for _, field := range fields {
 			result.Fields = append(result.Fields, field.Name)
@@ -360,6 +360,13 @@ func (h *handler) doQuery(sqlString string, permalink string) (*QueryResult, err
 		mx.Unlock()
 		return true, nil
 	})
+
+	if iterateErr != nil {
+		// The rows collected so far are incomplete (deadline exceeded, size
+		// limit reached, failed partition ...). Report the error instead of
+		// caching and serving them as a successful result.
+		return nil, iterateErr
+	}
 
 	result.TSCardinality = tsCardinality.Count()
 	result.Dims = make([]string, 0, len(dimCardinalities))
